@@ -116,6 +116,23 @@ static std::string lifecycle_check(World& w) {
 	return "";
 }
 
+static std::string population_case(int vmflags, bool jitcache, int n, int cache_at, const std::vector<int>& perm) {
+	env::State& E = env::S(); struct { int vmflags; bool jitcache; int n; int cache_at; } P{ vmflags, jitcache, n, cache_at };
+	std::string d; d.reserve(400); uint8_t ref[32], out[32]; std::vector<randomx_vm*> vms; vms.reserve((size_t)n + 1);   // harness containers are sized before tracking starts
+	{ env::Track t; long b0 = E.live_blocks, m0 = E.live_map_bytes, by0 = E.live_bytes;
+	  randomx_cache* c = randomx_alloc_cache(P.jitcache ? RANDOMX_FLAG_JIT : RANDOMX_FLAG_DEFAULT); if (!c) d = "randomx_alloc_cache failed";
+	  if (d.empty()) { randomx_init_cache(c, KEY, strlen(KEY)); for (int i = 0; i < P.n && d.empty(); ++i) { randomx_vm* vm = randomx_create_vm((randomx_flags)P.vmflags, c, nullptr); if (!vm) d = "randomx_create_vm failed for VM " + std::to_string(i); else vms.push_back(vm); } }
+	  if (d.empty()) { randomx_calculate_hash(vms[0], INPUT, strlen(INPUT), ref); randomx_calculate_hash(vms.back(), INPUT, strlen(INPUT), out); if (memcmp(ref, out, 32)) d = "first and last VM of the population disagree"; }
+	  if (d.empty()) { int destroyed = 0; bool cache_live = true;
+		for (int idx : perm) { if (cache_live && destroyed == P.cache_at) { randomx_release_cache(c); cache_live = false; }
+			if (cache_live && destroyed == P.n / 2) { randomx_calculate_hash(vms[(size_t)idx], INPUT, strlen(INPUT), out); if (memcmp(ref, out, 32)) d = "a VM of a half-destroyed population returns a wrong digest"; }
+			randomx_destroy_vm(vms[(size_t)idx]); ++destroyed; }
+		if (cache_live) randomx_release_cache(c); }
+	  if (d.empty() && (E.live_blocks != b0 || E.live_map_bytes != m0 || E.live_bytes != by0)) { char t2[200]; snprintf(t2, sizeof t2, "after every object was given back: live blocks %+ld, heap bytes %+ld, mapped bytes %+ld against the state before", E.live_blocks - b0, E.live_bytes - by0, E.live_map_bytes - m0); d = t2; }
+	  if (d.empty() && (E.short_unmaps || E.bad_frees)) d = "short munmap or foreign free while giving the population back"; }
+	return d;
+}
+
 int main(int argc, char** argv) {
 	vf::Args args = vf::parse_args(argc, argv, "C15");
 	const bool th = args.thorough();
@@ -124,6 +141,7 @@ int main(int argc, char** argv) {
 
 	if (!args.replay.empty()) {
 		vf::Json r = vf::Json::load(args.replay);
+		if (r.at("kind").s == "population") { std::vector<int> perm; for (auto& x : r.at("perm").a) perm.push_back((int)x.num()); std::string d = population_case((int)r.at("vm_flags").num(), r.at("jitcache").b, (int)r.at("n").num(), (int)r.at("cache_at").num(), perm); printf("replay population: %s\n", d.empty() ? "clean" : d.c_str()); return d.empty() ? 0 : 1; }
 		if (r.at("kind").s == "fault") {
 			const Shape& s = SH_[(size_t)r.at("shape").num()]; std::string d = fault_case(s, (long)r.at("k").num(), r.at("sticky").b, nullptr);
 			printf("replay %s k=%ld: %s\n", s.name.c_str(), (long)r.at("k").num(), d.empty() ? "clean" : d.c_str()); return d.empty() ? 0 : 1;
@@ -179,10 +197,46 @@ int main(int argc, char** argv) {
 		return R;
 	}, true, 3600);
 	total.merge(r2);
+	// ---- (3) populations: MANY objects alive at once and the order in which they are given back (the history search holds one VM at a time; a pooled or
+	//      slab-like allocation inside the library only shows with dozens of live objects - seeded change agent8_C15). N VMs on one cache; the cache is released
+	//      before, in the middle of, or after the VMs; destruction orders: every permutation for N <= 4, and FIFO / LIFO / odds-then-evens / inside-out for large N.
+	if (!heavy) {
+		struct Pop { int vmflags; bool jitcache; int n; int order; int cache_at; };   // order: -1 = permutation index in `perm`; cache_at: number of VMs destroyed before the cache is released (n+1 = cache is kept until the end)
+		std::vector<std::pair<Pop, std::vector<int>>> pops;
+		for (int vf_ : { (int)RANDOMX_FLAG_JIT, (int)(RANDOMX_FLAG_JIT | RANDOMX_FLAG_SECURE), (int)RANDOMX_FLAG_DEFAULT, (int)(RANDOMX_FLAG_JIT | RANDOMX_FLAG_HARD_AES) }) for (int jc = 0; jc < 2; ++jc) {
+			for (int n = 2; n <= 4; ++n) { std::vector<int> p(n); for (int i = 0; i < n; ++i) p[i] = i; do { for (int ca : { 0, 1, n }) pops.push_back({ Pop{ vf_, (bool)jc, n, -1, ca }, p }); } while (std::next_permutation(p.begin(), p.end())); }
+			for (int n : { 25, 26, 27, 40, 64 }) for (int order = 0; order < 4; ++order) for (int ca : { 0, n / 2, n }) {
+				if (!th && vf_ != (int)RANDOMX_FLAG_JIT && (n != 40 || order > 1)) continue;
+				std::vector<int> p; if (order == 0) for (int i = 0; i < n; ++i) p.push_back(i); else if (order == 1) for (int i = n - 1; i >= 0; --i) p.push_back(i);
+				else if (order == 2) { for (int i = 1; i < n; i += 2) p.push_back(i); for (int i = 0; i < n; i += 2) p.push_back(i); } else { for (int d = 0; d < n; ++d) { int i = n / 2 + ((d & 1) ? -(d + 1) / 2 : d / 2); if (i >= 0 && i < n && std::find(p.begin(), p.end(), i) == p.end()) p.push_back(i); } for (int i = 0; i < n; ++i) if (std::find(p.begin(), p.end(), i) == p.end()) p.push_back(i); }
+				pops.push_back({ Pop{ vf_, (bool)jc, n, order, ca }, p });
+			}
+		}
+		vf::Result r3 = vf::run_shards(args, 16, [&](int shard) {
+			vf::Result R; env::State& E = env::S();
+			for (size_t k = (size_t)shard; k < pops.size(); k += 16) {
+				const Pop& P = pops[k].first; const std::vector<int>& perm = pops[k].second;
+				int pfd[2]; if (pipe(pfd)) continue; fflush(stdout); pid_t pid = fork();
+				if (pid == 0) {   // each population in its own process: a crash is a verdict of this case
+					std::string d = population_case(P.vmflags, P.jitcache, P.n, P.cache_at, perm);
+					if (write(pfd[1], d.data(), d.size())) {} _exit(0);
+				}
+				close(pfd[1]); std::string d; char buf[512]; ssize_t q; while ((q = read(pfd[0], buf, sizeof buf)) > 0) d.append(buf, (size_t)q); close(pfd[0]); int st; waitpid(pid, &st, 0);
+				if (!(WIFEXITED(st) && WEXITSTATUS(st) == 0)) d = "abnormal termination while creating / giving back the population";
+				R.n["populations"]++;
+				if (!d.empty() && R.viol.size() < 3) { vf::Violation v; v.key = "c15:population"; std::string ord; for (size_t i = 0; i < perm.size() && i < 12; ++i) ord += std::to_string(perm[i]) + " ";
+					char t3[160]; snprintf(t3, sizeof t3, "%d VMs (flags 0x%x) on a %s cache, destroyed in the order %s%s, cache released after %d of them: ", P.n, P.vmflags, P.jitcache ? "JIT" : "default", ord.c_str(), perm.size() > 12 ? "..." : "", P.cache_at);
+					v.what = t3 + d; vf::Json pj = vf::Json::arr(); for (int i : perm) pj.push(i);
+					v.replay = vf::Json::obj().set("kind", "population").set("vm_flags", P.vmflags).set("jitcache", P.jitcache).set("n", P.n).set("cache_at", P.cache_at).set("perm", pj); R.viol.push_back(v); }
+			}
+			return R;
+		}, true, 3600);
+		total.merge(r3);
+	}
 	vf::Evidence ev; ev.level = "fault_enumeration";
-	ev.coverage.set("evaluations", (unsigned long long)(total.n["fault_cases"] + total.n["dry_runs"] + total.n["transitions"])).set("distinct_nontrivial", (unsigned long long)(total.n["fault_cases"] + total.n["states"]))
+	ev.coverage.set("evaluations", (unsigned long long)(total.n["fault_cases"] + total.n["dry_runs"] + total.n["transitions"] + total.n["populations"])).set("distinct_nontrivial", (unsigned long long)(total.n["fault_cases"] + total.n["states"]))
 		.set("states", (unsigned long long)total.n["states"]).set("transitions", (unsigned long long)total.n["transitions"]).set("exhaustive", !total.incomplete)
-		.set("rule", std::string("profile ") + RX_PROFILE + ": fault positions: for each of " + std::to_string(SH_.size()) + " creating-call shapes (alloc_cache x {default,JIT} x {-,LARGE_PAGES} x 3 Argon2 flags, alloc_dataset x2, create_vm x 12 flag sets x {-,LARGE_PAGES}; LARGE_PAGES with huge pages available and unavailable) every request index k of the dry run, as a single fault and as a sticky fault, each in a forked child: NULL result, accounting == pre-call, epilogue create/hash/destroy == reference digest and baseline; lifecycle: all ownership-respecting histories to the depth bound per VM flag set (states deduplicated on the concrete digest), in every state a forked clone releases everything and must reach the baseline; short munmap / foreign free flagged in every state. distinct = fault cases + lifecycle states");
+		.set("rule", std::string("profile ") + RX_PROFILE + ": fault positions: for each of " + std::to_string(SH_.size()) + " creating-call shapes (alloc_cache x {default,JIT} x {-,LARGE_PAGES} x 3 Argon2 flags, alloc_dataset x2, create_vm x 12 flag sets x {-,LARGE_PAGES}; LARGE_PAGES with huge pages available and unavailable) every request index k of the dry run, as a single fault and as a sticky fault, each in a forked child: NULL result, accounting == pre-call, epilogue create/hash/destroy == reference digest and baseline; lifecycle: all ownership-respecting histories to the depth bound per VM flag set (states deduplicated on the concrete digest), in every state a forked clone releases everything and must reach the baseline; short munmap / foreign free flagged in every state; populations: N VMs alive at once on one cache (N = 2..4 with every destruction order, N = 25..64 with FIFO / LIFO / odds-then-evens / inside-out), the cache released before, in the middle of or after them: digests stay correct and the accounting returns to the state before. distinct = fault cases + lifecycle states");
 	ev.assumptions = { "every allocation path of the library (malloc family, posix_memalign via _mm_malloc, operator new, mmap incl. MAP_HUGETLB) is interposed by the harness; mprotect failure is not an allocation request and is not injected" };
 	return vf::finish(args, total, ev, true, true);
 }
